@@ -46,52 +46,56 @@ def t_or(x, y):
     return None if x is None or y is None else False
 
 
-def ev(e, env):
+def ev(e, env, ext=None):
+    """ext(e, env): evaluator for node kinds this module does not define (callers add aggregates / subqueries)."""
     op = e[0]
     if op == "col":
         return env[e[1]]
     if op == "lit":
         return e[1]
     if op in _CMP:
-        a, b = ev(e[1], env), ev(e[2], env)
+        a, b = ev(e[1], env, ext), ev(e[2], env, ext)
         return None if a is None or b is None else _CMP[op](a, b)
     if op == "add":
-        a, b = ev(e[1], env), ev(e[2], env)
+        a, b = ev(e[1], env, ext), ev(e[2], env, ext)
         return None if a is None or b is None else a + b
     if op == "and":
-        return t_and(ev(e[1], env), ev(e[2], env))
+        return t_and(ev(e[1], env, ext), ev(e[2], env, ext))
     if op == "or":
-        return t_or(ev(e[1], env), ev(e[2], env))
+        return t_or(ev(e[1], env, ext), ev(e[2], env, ext))
     if op == "not":
-        return t_not(ev(e[1], env))
+        return t_not(ev(e[1], env, ext))
     if op == "isnull":
-        return ev(e[1], env) is None
+        return ev(e[1], env, ext) is None
     if op == "notnull":
-        return ev(e[1], env) is not None
+        return ev(e[1], env, ext) is not None
     if op in ("in", "notin"):  # x IN (v1..vn) == x = v1 OR ... OR x = vn
-        x, r = ev(e[1], env), False
+        x, r = ev(e[1], env, ext), False
         for item in e[2]:
-            v = ev(item, env)
+            v = ev(item, env, ext)
             r = t_or(r, None if x is None or v is None else x == v)
         return r if op == "in" else t_not(r)
     if op == "between":  # x >= lo AND x <= hi
-        return ev(("and", ("ge", e[1], e[2]), ("le", e[1], e[3])), env)
+        return ev(("and", ("ge", e[1], e[2]), ("le", e[1], e[3])), env, ext)
     if op == "case":
         for cond, val in e[1]:
-            if ev(cond, env) is True:
-                return ev(val, env)
-        return ev(e[2], env)
+            if ev(cond, env, ext) is True:
+                return ev(val, env, ext)
+        return ev(e[2], env, ext)
     if op == "coalesce":
         for x in e[1]:
-            v = ev(x, env)
+            v = ev(x, env, ext)
             if v is not None:
                 return v
         return None
+    if ext is not None:
+        return ext(e, env)
     raise ValueError(f"unknown scalar node {op!r}")
 
 
-def to_sql(e):
+def _to_sql(e, ext=None):
     op = e[0]
+    to_sql = lambda x: _to_sql(x, ext)  # noqa: E731
     if op == "col":
         return e[1]
     if op == "lit":
@@ -111,7 +115,12 @@ def to_sql(e):
         return f"(CASE {whens} ELSE {to_sql(e[2])} END)"
     if op == "coalesce":
         return f"COALESCE({', '.join(to_sql(x) for x in e[1])})"
+    if ext is not None:
+        return ext(e)
     raise ValueError(f"unknown scalar node {op!r}")
+
+
+to_sql = _to_sql
 
 
 # ---------------------------------------------------------------------------------------------------- relations
@@ -158,12 +167,14 @@ def setop(op, all_, left, right):
 
 
 def aggregate(fn, values):
-    """fn in SUM|COUNT|MIN|MAX|AVG|COUNT_STAR; values = the argument evaluated on every row of the group."""
+    """fn in SUM|COUNT|COUNT_DISTINCT|MIN|MAX|AVG|COUNT_STAR; values = the argument evaluated on every row of the group."""
     if fn == "COUNT_STAR":
         return len(values)
     vals = [v for v in values if v is not None]
     if fn == "COUNT":
         return len(vals)
+    if fn == "COUNT_DISTINCT":
+        return len(set(vals))
     if not vals:
         return None
     return {"SUM": sum, "MIN": min, "MAX": max, "AVG": lambda v: sum(v) / len(v)}[fn](vals)
@@ -234,7 +245,7 @@ def _selftest(n=1500, seed=7):
         if pick == "case":
             return (pick, [(pred(d - 1, names), num(d - 1, names)) for _ in range(rnd.randint(1, 2))], num(d - 1, names))
         if pick == "coalesce":
-            return (pick, [num(d - 1, names) for _ in range(rnd.randint(1, 3))])
+            return (pick, [num(d - 1, names) for _ in range(rnd.randint(2, 3))])
         return (pick, num(d - 1, names), num(d - 1, names))
 
     def num(d, names):
@@ -282,8 +293,8 @@ def _selftest(n=1500, seed=7):
             same(f"setop-{op}-ALL", f"SELECT a, b FROM ({num_}l {op} {num_}r)", setop(op, True, L, R))
         same("distinct", "SELECT DISTINCT a, b FROM l", distinct(L))
         # aggregates with and without GROUP BY, HAVING
-        for fn in ("SUM", "COUNT", "MIN", "MAX", "AVG", "COUNT_STAR"):
-            call = "COUNT(*)" if fn == "COUNT_STAR" else f"{fn}(b)"
+        for fn in ("SUM", "COUNT", "MIN", "MAX", "AVG", "COUNT_STAR", "COUNT_DISTINCT"):
+            call = "COUNT(*)" if fn == "COUNT_STAR" else "COUNT(DISTINCT b)" if fn == "COUNT_DISTINCT" else f"{fn}(b)"
             same("agg-nogroup", f"SELECT {call} FROM l",
                  [(aggregate(fn, [r[1] for r in g]),) for _, g in group_by(L, None, False)])
             same("agg-group", f"SELECT a, {call} FROM l GROUP BY a",
